@@ -3,6 +3,8 @@ package main
 import (
 	"fmt"
 	"os"
+	"regexp"
+	"strings"
 	"sync"
 )
 
@@ -182,7 +184,7 @@ func minimise(sc *scratch, cfg *propCfg, first *runResult, kf *knownFile) *repla
 	if !ok2 || r2.LogHash != r.LogHash {
 		note += "; WARNING: two replays of the minimised tape gave different event logs"
 	}
-	tr := r.Trace
+	tr := resolveSites(sc, r.Trace)
 	if len(tr) > 400 {
 		tr = append(append([]string{}, tr[:100]...), append([]string{"..."}, tr[len(tr)-300:]...)...)
 	}
@@ -198,4 +200,36 @@ func recordTape(sc *scratch, cfg *propCfg, first *runResult, opt string) ([]int,
 		return rs[0].Plan, rs[0].Sched
 	}
 	return nil, nil
+}
+
+var siteRefRe = regexp.MustCompile(`@(\d+)$`)
+
+// resolveSites replaces the instrumentation site numbers at the end of trace
+// lines by their source positions, so that a replay file reads without the
+// scratch copy it was made from.
+func resolveSites(sc *scratch, lines []string) []string {
+	b, err := os.ReadFile(sc.sites)
+	if err != nil {
+		return lines
+	}
+	pos := map[string]string{}
+	for _, l := range strings.Split(string(b), "\n") {
+		p := strings.SplitN(l, "\t", 3)
+		if len(p) >= 2 {
+			pos[p[0]] = p[1]
+			if len(p) == 3 && p[2] != "" {
+				pos[p[0]] += " " + p[2]
+			}
+		}
+	}
+	out := make([]string, len(lines))
+	for i, l := range lines {
+		out[i] = siteRefRe.ReplaceAllStringFunc(l, func(m string) string {
+			if p, ok := pos[m[1:]]; ok {
+				return "@" + p
+			}
+			return m
+		})
+	}
+	return out
 }
